@@ -51,7 +51,7 @@ func (c20Driver) Tier(t string) core.Tier {
 
 func (c20Driver) Info() core.Info {
 	return core.Info{
-		Rule: "A case is (text of 0-24 runes over {a,b,é,LF,space,tab}, 1-3 nested indent writers with prefixes from a fixed set incl. empty, multi-byte and LF-containing ones, a division of the text into 1-8 Write calls at byte offsets (empty chunks and splits inside a rune included), and a sink fault: none / stop after p bytes in total / error after full accept on call k). " +
+		Rule: "A case is (text of 0-24 runes over {a,b,é,LF,space,tab} — in one case of 60 repeated up to about 512, 4096 or 8192 bytes —, 1-3 nested indent writers with prefixes from a fixed set incl. empty, multi-byte and LF-containing ones, a division of the text into 1-8 Write calls at byte offsets (empty chunks and splits inside a rune included), and a sink fault: none / stop after p bytes in total / error after full accept on call k). " +
 			"A case is non-trivial when the text is non-empty, at least one prefix is non-empty, and it has >= 2 non-empty chunks or its fault fired. Two cases are distinct when their explicit descriptions differ.",
 		Assumptions: []string{
 			"the underlying writer honours the io.Writer contract (n < len(p) implies a non-nil error); a sink that returns a short count with a nil error is not simulated",
@@ -65,6 +65,7 @@ func (c20Driver) Info() core.Info {
 	}
 }
 
+// (texts: 0-24 runes; one case in 60 repeats its text up to about 512, 4096 or 8192 bytes)
 var c20Runes = []rune{'a', 'b', 'é', '\n', ' ', '\t'}
 var c20Prefixes = []string{"", " ", "  ", "// ", "é", "\n", "ab\n", "\t", "x"}
 
@@ -78,6 +79,19 @@ func (c20Driver) Generate(t *tape.Tape, tier string) core.Case {
 	}
 	for i := 0; i < n; i++ {
 		b = utf8.AppendRune(b, c20Runes[t.Weighted(nlWeight...)])
+	}
+	if lt := t.Sub("long"); lt.Chance(1, 60) && len(b) > 0 {
+		// a long text (around a power of two): a writer that manages a buffer of
+		// its own meets its growth and boundary arithmetic only there
+		L := []int{511, 512, 513, 4095, 4096, 4097, 8191, 8192, 8193}[lt.Intn(9)] + lt.Range(-1, 1)
+		unit := b
+		for len(b) < L {
+			b = append(b, unit...)
+		}
+		b = b[:L]
+		for len(b) > 0 && !utf8.Valid(b) { // (do not end inside a rune)
+			b = b[:len(b)-1]
+		}
 	}
 	c.Text = string(b)
 	depth := 1 + t.Weighted(6, 3, 1)
@@ -256,6 +270,9 @@ func (c20Driver) Run(cc core.Case) core.Outcome {
 	}
 	if len(c.Prefixes) > 1 {
 		o.Count("probe.nested_writers", 1)
+	}
+	if len(c.Text) >= 500 {
+		o.Count("probe.long_text", 1)
 	}
 	cuts := append([]int{}, c.Cuts...)
 	for i := range cuts {
